@@ -830,3 +830,11 @@ mod tests {
         assert_eq!(*pos.prev.get_mut(), ELAPSE_TIME.as_nanos() as u64);
     }
 }
+
+// Verification hooks (add-only): inert unless built by Kani or with `--cfg indicatif_verif`.
+#[cfg(kani)]
+#[path = "/verif/kani/state.rs"]
+mod verif_kani;
+#[cfg(indicatif_verif)]
+#[path = "/verif/hooks/state.rs"]
+pub mod verif_hooks;
